@@ -67,6 +67,8 @@ pub fn elementwise(r: &dyn Runner, tier: Tier, st: &St, out: &mut Vec<Edge>) {
     }
     out.push(Edge::Clear(Api::Erased));
     out.push(Edge::Clear(Api::Typed));
+    // moving the vector value (for inline backends the storage moves too): nothing may depend on where the vector lives
+    for slot in 0..2u8 { for then in [0u8, 1, 3, 5, 10] { out.push(Edge::Relocate { slot, then }); } }
     for api in [Api::Erased, Api::Typed] {
         for k in [GetKind::Get, GetKind::At, GetKind::GetMut, GetKind::AtMut, GetKind::GetUncheckedInRange, GetKind::Index, GetKind::IndexMut] {
             for i in idx(len) { out.push(Edge::Get(api, k, i)); }
@@ -352,6 +354,7 @@ pub fn rawparts(_r: &dyn Runner, _tier: Tier, _st: &St, out: &mut Vec<Edge>) {
 pub fn views(_r: &dyn Runner, _tier: Tier, _st: &St, out: &mut Vec<Edge>) {
     for variant in 0..4u8 { out.push(Edge::Bytes { variant, k: 0 }); }
     for variant in 4..6u8 { for k in 1..=2u8 { out.push(Edge::Bytes { variant, k }); } }
+    for variant in 7..9u8 { for k in 1..=2u8 { out.push(Edge::Bytes { variant, k }); } }
     for k in 0..16u8 { out.push(Edge::Bytes { variant: 6, k }); }
 }
 
@@ -492,6 +495,8 @@ pub fn edges_for(prop: Prop, tier: Tier, r: &dyn Runner, st: &St) -> Vec<Edge> {
             // a failed (wrong-type) downcast is a value sink too: the handle must still destroy / keep its value exactly once
             // a safe but lying replacement iterator must not make the vector touch memory outside its storage either
             if prop == Prop::C05 { liars(r, st, false, &mut v); }
+            // values moved out by hand and cut off with set_len belong to the caller (set_len destroys nothing)
+            if prop == Prop::C03 { for variant in 7..9u8 { for k in 1..=2u8 { v.push(Edge::Bytes { variant, k }); } } }
             if prop == Prop::C03 { for ty in 0..=crate::exec_handles::N_WRONG_TYPES { for kind in 0..13u8 { v.push(Edge::WrongDowncast(kind, ty)); } } } }
         _ => {}
     }
